@@ -370,6 +370,7 @@ class PrimaryOrSupplementaryVD:
         self.seqnum = orig.seqnum
         self.log_block_size = orig.log_block_size
         self.path_tbl_size = orig.path_tbl_size
+        self.path_table_num_extents = orig.path_table_num_extents
         self.path_table_location_le = orig.path_table_location_le
         self.optional_path_table_location_le = orig.optional_path_table_location_le
         self.path_table_location_be = orig.path_table_location_be
